@@ -54,7 +54,7 @@ def context(out, idx, width=14):
 
 
 def run_property(prop, tier, seed, prop_file, corr_mod, check_fn, profiles, n_quick, n_thorough, codes, finding_id,
-                 finding_what, assumptions, forced=None):
+                 finding_what, assumptions, forced=None, extra=None):
     res = Result(prop, tier, seed)
     work = Work(prop)
     try:
@@ -95,6 +95,14 @@ def run_property(prop, tier, seed, prop_file, corr_mod, check_fn, profiles, n_qu
                         "codes": codes},
         })
         res.assumptions = assumptions
+        if extra and harness_ok:
+            x_ok, x_bad, x_out = extra(res, work, tier)
+            if not x_ok:
+                harness_ok, gout = False, x_out
+            elif x_bad:
+                res.violation("stress", {"property": prop, "what": "monitor false on a concurrent run of the real code (real scheduler)",
+                                         "observed": x_bad[:3], "seed": seed, "tier": tier})
+                return res.finish()
         if rejected and not unknown and harness_ok:
             # the correspondence is broken although no monitor failed: search further scenarios of the same
             # profiles for a concrete failing trace before giving up
